@@ -652,16 +652,25 @@ def run_stress(job):
                     bad.append({"thread": idx, "step": step, "query": q, "what": msg, "got": describe(kind, val)})
 
     threads = [threading.Thread(target=body, args=(i,), daemon=True) for i in range(len(programs))]
+    serial = bool(job.get("serial"))
     try:
-        for t in threads:
-            t.start()
         deadline = time.time() + job.get("timeout", 120)
-        for t in threads:
-            t.join(max(0.1, deadline - time.time()))
+        if serial:
+            # one thread after the other: CPython usually hands the ident of a dead thread to the next one
+            start = threading.Barrier(1)
+            for t in threads:
+                t.start()
+                t.join(max(0.1, deadline - time.time()))
+        else:
+            for t in threads:
+                t.start()
+            for t in threads:
+                t.join(max(0.1, deadline - time.time()))
         alive = [i for i, t in enumerate(threads) if t.is_alive()]
     finally:
         sys.setswitchinterval(old)
-    return {"bad": bad, "alive": alive, "idents_distinct": len(set(idents)) == len(idents)}
+    return {"bad": bad, "alive": alive, "idents_reused": len(set(idents)) < len(idents),
+            "idents_distinct": True if serial else len(set(idents)) == len(idents)}
 
 
 def main():
